@@ -29,7 +29,11 @@ PROPS = {
                           "back-pointer realises CG link by link, reported anomalies have admissible lengths and are pairwise disjoint; delayed pruning and "
                           "the max-length rule are part of the invariant. penalise_savings == best non-empty subset proved for p<=2 (both branches), "
                           "optimise_savings' start == the maximising candidate. Non-negative/non-decreasing scores follow from CG's definition. "
-                          "Class glue, ignore_point_anomalies, p>2 subset exchange argument and 're-evaluation == final score' (telescoping) are bounded.",
+                          "'Re-evaluating the reported anomalies gives exactly the final score' is proved as a total: get_anomalies reports every link of "
+                          "the value-carrying back-pointer chain (V[n] == V[0] + sum of the reported gains, list sums LSUM with the extensionality lemma "
+                          "L_lsum_ext), hence CG(n) == sum of the penalised savings of the reported collective and point anomalies (run_base_capa, run_capa). "
+                          "CAPA/MVCAPA class glue (_predict, _transform_scores, ignore_point_anomalies) proved with pandas assumed; the p>2 subset exchange "
+                          "argument is bounded.",
             "level_note": "CG defined by its Bellman equations; PSC for symbolic p is the assumed row-wise penalised saving (exchange argument assumed, "
                           "proved for p<=2, enumerated for p<=6 by the bounded tier); floats as reals; scorer interface assumed"},
     "C04": {"category": "proof", "driver": "C04", "claimed": True,
